@@ -679,11 +679,11 @@ fn main() {
         }
         for (k, sg) in sched2.iter().enumerate() { let c = rn.case("random2", &s, sg, k % 3 == 1); out.push(c); }
     }
-    for _ in 0..scale(50, 300) {
+    for _ in 0..scale(40, 300) {
         let s = gen_scen(&mut rng, 3);
-        for pi in orders(3).into_iter().take(scale(3, 6)) {
+        for (k, pi) in orders(3).into_iter().take(scale(3, 6)).enumerate() {
             let c = rn.case("random-sequential", &s, &serial_sched(&pi), false); out.push(c);
-            if let Some(t) = without_rooms(&s) { let c = rn.case_service("random-service-sequential", &t, &pi); out.push(c); }
+            if k < scale(1, 6) { if let Some(t) = without_rooms(&s) { let c = rn.case_service("random-service-sequential", &t, &pi); out.push(c); } }
         }
         for k in 0..scale(6, 12) {
             let (kind, sg) = if k % 2 == 0 { ("random3", random_schedule(&mut rng, 3)) } else { ("random3-disjoint-windows", random_schedule_disjoint(&mut rng, &s)) };
